@@ -206,6 +206,30 @@ func runCheck(prop string, ps *PropSpec, tier, repo string, seed int, verbose bo
 	var bindFailures []string
 
 	for _, short := range ps.Funcs {
+		if strings.HasPrefix(short, "lemma:") {
+			// lemma:<label> — a closed formula stated in a contract file
+			vc, err := lemmaVC(p, strings.TrimPrefix(short, "lemma:"))
+			if err != nil {
+				bindFailures = append(bindFailures, fmt.Sprintf("bind.%s: %v", short, err))
+				continue
+			}
+			vc.Discharge(timeout, 16, "")
+			fr := fnReport{Name: short, Mode: "lemma over package-level constants"}
+			for _, o := range vc.obls {
+				solverMs += o.Ms
+				totalObl++
+				fr.Obligations++
+				oblReports = append(oblReports, oblReport{Name: o.Name, Kind: o.Kind, Status: o.Status, Solver: o.Solver, Ms: o.Ms, Clause: o.Desc})
+				if o.Status == "discharged" {
+					totalDis++
+					fr.Discharged++
+				} else {
+					failures = append(failures, failure{o, vc, o.Status})
+				}
+			}
+			fnReports = append(fnReports, fr)
+			continue
+		}
 		full := fullName(p, short)
 		fn := p.Funcs[full]
 		con := p.CS.Funcs[full]
@@ -420,4 +444,50 @@ func writeReplay(p *Prog, prop, dir string, first failure, all []failure, repo s
 	}
 	_ = os.WriteFile(path, []byte(b.String()), 0o644)
 	return path, replayed
+}
+
+// lemmaVC builds the single obligation of a lemma: the formula is evaluated in the
+// scope of its package (constants, globals at an arbitrary state) and must be valid.
+func lemmaVC(p *Prog, label string) (*FuncVC, error) {
+	for _, l := range p.CS.Lemmas {
+		if l.Name != label {
+			continue
+		}
+		sp := p.SSAPkgs[l.Pkg]
+		if sp == nil {
+			return nil, fmt.Errorf("package %s of lemma %s is not loaded", l.Pkg, label)
+		}
+		// any function of the package provides the naming scope
+		var fn *ssa.Function
+		for _, m := range sp.Members {
+			if f, ok := m.(*ssa.Function); ok && f.Blocks != nil && (fn == nil || f.Name() < fn.Name()) {
+				fn = f
+			}
+		}
+		if fn == nil {
+			return nil, fmt.Errorf("no function in package %s", l.Pkg)
+		}
+		vc := NewFuncVC(p, fn, &Contract{Pkg: l.Pkg, Loops: map[int]*LoopSpec{}, Opaque: map[string]bool{}})
+		vc.Name = l.Pkg + ".lemma"
+		var err error
+		func() {
+			defer func() {
+				if r := recover(); r != nil {
+					err = fmt.Errorf("%v", r)
+				}
+			}()
+			vc.comp("alloc", arraySort(SInt, SBool), false)
+			vc.comp("clock", SInt, false)
+			vc.entryState = vc.newState(stEntry, nil)
+			vc.cur = vc.entryState
+			vc.reach[nil] = tTrue
+			env := vc.newEnv(vc.entryState, vc.entryState)
+			env.callee = true
+			env.calleeCon = vc.C
+			f := vc.evalGoal(env, l.Clause)
+			vc.oblige("lemma", "lemma."+label, tTrue, f, l.Clause.Src)
+		}()
+		return vc, err
+	}
+	return nil, fmt.Errorf("lemma %s not found in the contract files", label)
 }
